@@ -349,6 +349,7 @@ type harness struct {
 	model      *hx.Model
 	lastSchema string
 	muts       []mutation
+	reported   map[string]int
 }
 
 type failure struct {
@@ -867,6 +868,15 @@ func classify(c *Case, ev *evaluated) string {
 }
 
 func (h *harness) report(c *Case, ev *evaluated) {
+	// hx keeps three violations per kind; do not spend time shrinking more than that
+	if h.reported == nil {
+		h.reported = map[string]int{}
+	}
+	h.reported[ev.fail.kind]++
+	if h.reported[ev.fail.kind] > 3 {
+		h.run.Violate(ev.fail.kind, ev.fail.what, classify(c, ev), ev.fail.kind == "correspondence", c)
+		return
+	}
 	sc, sev := h.shrink(c, ev)
 	key := classify(sc, sev)
 	noInput := sev.fail.kind == "correspondence"
@@ -967,7 +977,7 @@ func main() {
 		h.process(&c, ev)
 	}
 
-	nSchemas := run.Scale(60, 1200)
+	nSchemas := run.Scale(450, 9000)
 	docsPerSchema := run.Scale(14, 16)
 	mutsPerDoc := run.Scale(4, 6)
 	for si := 0; si < nSchemas; si++ {
